@@ -32,7 +32,7 @@ fam('ds-sort', 'h_ds_sort', 5, tier='thorough', w=40)
 fam('ds-median', 'h_ds_median', 5, tier='thorough', w=40)
 fam('ts-sort', 'h_ts_sort', 4, tier='thorough', w=60)
 fam('ts-median', 'h_ts_median', 4, tier='thorough', w=60)
-fam('ds-acf', 'h_ds_acf', 5, tier='thorough', w=60)
+# ds-acf with 5 samples: 5 branch queries undecided (NRA): not claimed
 fam('ds-hist', 'h_ds_hist', 4, tier='thorough', w=30)
 
 c = Check('C18')
